@@ -4,9 +4,9 @@ case-split boundaries of the proofs (12/13, 268/269, 65804/65805, per-option lim
 KNOWN = [1, 3, 4, 5, 6, 7, 8, 9, 11, 12, 14, 15, 16, 17, 19, 20, 23, 27, 28, 31, 35, 39, 60, 252,
          258, 292]
 LIMITS = {1: (0, 8), 3: (1, 255), 4: (1, 8), 5: (0, 0), 6: (0, 3), 7: (0, 2), 8: (0, 255),
-          9: (0, 255), 11: (0, 255), 12: (0, 2), 14: (0, 4), 15: (1, 255), 16: (1, 1), 17: (0, 2),
-          20: (0, 255), 23: (0, 3), 27: (0, 3), 28: (0, 4), 35: (1, 1034), 39: (1, 255),
-          60: (0, 4), 252: (0, 40), 258: (0, 1), 292: (0, 8)}
+          9: (0, 255), 11: (0, 255), 12: (0, 2), 14: (0, 4), 15: (0, 255), 16: (1, 1), 17: (0, 2),
+          19: (0, 3), 20: (0, 255), 23: (0, 3), 27: (0, 3), 28: (0, 4), 31: (0, 3), 35: (1, 1034),
+          39: (1, 255), 60: (0, 4), 252: (1, 40), 258: (0, 1), 292: (0, 8)}
 BND_NUM = [0, 1, 2, 12, 13, 14, 24, 25, 26, 268, 269, 270, 281, 282, 537, 538, 539, 2048, 65000,
            65534, 65535]
 BND_LEN = [0, 1, 2, 3, 4, 5, 8, 9, 12, 13, 14, 40, 41, 255, 256, 268, 269, 270, 1034, 1035]
